@@ -28,7 +28,7 @@ func fillValue(name string, v reflect.Value, model map[string]string) {
 	t := v.Type()
 	if t == timeType {
 		if s, ok := model[name+"!sec"]; ok {
-			v.Set(reflect.ValueOf(TimeFromInternal(int64(DecodeBV(s)), int64(DecodeBV(model[name+"!nsec"])))))
+			v.Set(reflect.ValueOf(InZone(TimeFromInternal(int64(DecodeBV(s)), int64(DecodeBV(model[name+"!nsec"]))), model, name)))
 		}
 		return
 	}
